@@ -337,41 +337,42 @@ theorem config_in_filter_rejected (cx : Ctx) (q : Bytes) (t : Filter)
 
 /-! ## whole-text corollaries -/
 
+theorem exprF_first_error (cx : Ctx) (q : Bytes) (x : Err)
+    (he : (next cx false q none).err = some x) (hk : (next cx false q none).tok.kind = 0) (n : Nat) :
+    (exprF cx (n + 4) q none).err = some x := by
+  have e1 : ((0 : UInt8) == cLP) = false := by decide
+  have e2 : ((0 : UInt8) == cDash) = false := by decide
+  have e3 : ((0 : UInt8) == cStar) = false := by decide
+  have e4 : isWord 0 = false := by decide
+  have hm : (matchF cx (n + 1) q none).err = some x := by
+    simp only [matchF, hk, e1, e2, e3, e4]
+    simp [perr, he, recErr]
+  have ha : (andExprF cx (n + 2) q none).err = some x := by
+    simp only [andExprF]
+    have := ((parser_ok cx (n + 1)).2.2.2.1 [(matchF cx (n + 1) q none).f] (matchF cx (n + 1) q none).rest
+      (matchF cx (n + 1) q none).err).err
+    rw [hm] at this ⊢
+    exact this.some
+  simp only [exprF, exprLoop]
+  generalize andExprF cx (n + 2) q none = a at ha ⊢
+  have hop := (next_ok cx false a.rest a.err).err
+  rw [ha] at hop ⊢
+  split
+  · have := ((parser_ok cx (n + 2)).2.1 ([] ++ [a.f]) (next cx false a.rest (some x)).rest
+      (next cx false a.rest (some x)).err).err
+    rw [hop.some] at this ⊢
+    exact this.some
+  · exact hop.some
+
 /-- if the very first token of a text is in error, both parsers reject the text -/
 theorem first_token_error_rejects (cx : Ctx) (q : Bytes) (x : Err)
     (he : (next cx false q none).err = some x) (hk : (next cx false q none).tok.kind = 0) :
     parseFilter cx q = .error x ∧ Proc.ParseProj.parseProjection cx q = .error x := by
   constructor
   · apply (error_is_final cx q x).2.2.1
-    have e1 : ((0 : UInt8) == cLP) = false := by decide
-    have e2 : ((0 : UInt8) == cDash) = false := by decide
-    have e3 : ((0 : UInt8) == cStar) = false := by decide
-    have e4 : isWord 0 = false := by decide
-    have hm : ∀ f, (matchF cx (f + 1) q none).err = some x := by
-      intro f
-      simp only [matchF, hk, e1, e2, e3, e4]
-      simp [perr, he, recErr]
-    have ha : ∀ f, (andExprF cx (f + 2) q none).err = some x := by
-      intro f
-      simp only [andExprF]
-      have := ((parser_ok cx (f + 1)).2.2.2.1 [(matchF cx (f + 1) q none).f] (matchF cx (f + 1) q none).rest
-        (matchF cx (f + 1) q none).err).err
-      rw [hm f] at this ⊢
-      exact this.some
     have hfuel : fuelFor q = (5 * q.length + 2) + 4 := by unfold fuelFor; omega
     rw [hfuel]
-    simp only [exprF, exprLoop]
-    have hop := (next_ok cx false (andExprF cx (5 * q.length + 2 + 2) q none).rest
-      (andExprF cx (5 * q.length + 2 + 2) q none).err).err
-    rw [ha (5 * q.length + 2)] at hop ⊢
-    split
-    · have := ((parser_ok cx (5 * q.length + 2 + 2)).2.1
-        ([] ++ [(andExprF cx (5 * q.length + 2 + 2) q none).f])
-        (next cx false (andExprF cx (5 * q.length + 2 + 2) q none).rest (some x)).rest
-        (next cx false (andExprF cx (5 * q.length + 2 + 2) q none).rest (some x)).err).err
-      rw [hop.some] at this ⊢
-      exact this.some
-    · exact hop.some
+    exact exprF_first_error cx q x he hk _
   · simp only [Proc.ParseProj.parseProjection, Proc.ParseProj.projLoop, hk]
     simp [he, endCheck_some]
 
